@@ -39,6 +39,10 @@ type groupCase struct {
 	NFuncs    int         `json:"nfuncs"`
 	Calls     []groupCall `json:"calls"`
 	Seq       int         `json:"seq"` // > 0: instead, this many sequential calls of conc_f1(i, "") on the one client
+	// SharedCtx: instead, the calls are made one after the other through proxy functions of DIFFERENT result
+	// signatures that all take a context carrying ONE *core.ClientContext (a caller reusing its context);
+	// call.F selects the signature: 1 = (string, int, error), 2 = (string, error), 3 = error, 4 = (string, int)
+	SharedCtx bool `json:"shared_ctx"`
 }
 
 type groupCallObs struct {
@@ -96,6 +100,9 @@ func runGroup(line []byte, out *json.Encoder) error {
 	}
 	if c.Seq > 0 {
 		return runSequence(&c, service, &obs, &mu, out)
+	}
+	if c.SharedCtx {
+		return runSharedCtx(&c, service, &obs, &mu, out)
 	}
 	// the barrier: every call waits, decoded but not yet executed, until all calls of the group are there
 	var arrived int32
@@ -231,5 +238,65 @@ func runSequence(c *groupCase, service *core.Service, obs *groupObs, mu *sync.Mu
 	obs.SeqRuns = len(obs.Log)
 	obs.Log = nil
 	mu.Unlock()
+	return out.Encode(obs)
+}
+
+
+// runSharedCtx: proxy functions with different result signatures, all published as conc_f1, called one
+// after the other with ONE *core.ClientContext carried by the context argument.
+func runSharedCtx(c *groupCase, service *core.Service, obs *groupObs, mu *sync.Mutex, out *json.Encoder) error {
+	cc := c08Case{Transport: c.Transport, Pool: c.Pool}
+	srv, err := start(&cc, service)
+	if err != nil {
+		obs.Env = "server: " + err.Error()
+		return out.Encode(obs)
+	}
+	defer srv.close()
+	time.Sleep(5 * time.Millisecond)
+	client := rpc.NewClient(srv.url)
+	client.Codec = core.NewClientCodec(codecOptions(c.Copts, false)...)
+	client.Timeout = 5 * time.Second
+	defer client.Abort()
+	var proxy struct {
+		G1 func(context.Context, int, string) (string, int, error) `name:"conc_f1"`
+		G2 func(context.Context, int, string) (string, error)      `name:"conc_f1"`
+		G3 func(context.Context, int, string) error                `name:"conc_f1"`
+		G4 func(context.Context, int, string) (string, int)        `name:"conc_f1"`
+	}
+	client.UseService(&proxy)
+	cctx := core.NewClientContext()
+	ctx := core.WithContext(context.Background(), cctx)
+	for i := range c.Calls {
+		call := c.Calls[i]
+		o := &obs.Calls[i]
+		s := unhexs(call.S)
+		o.Panic = safely(func() {
+			var e error
+			switch call.F {
+			case 1:
+				var r string
+				var n int
+				r, n, e = proxy.G1(ctx, call.X, s)
+				o.GotS, o.GotN, o.NRes = hexs(r), n, 2
+			case 2:
+				var r string
+				r, e = proxy.G2(ctx, call.X, s)
+				o.GotS, o.NRes = hexs(r), 1
+			case 3:
+				e = proxy.G3(ctx, call.X, s)
+			default:
+				r, n := proxy.G4(ctx, call.X, s)
+				o.GotS, o.GotN, o.NRes = hexs(r), n, 2
+			}
+			if e != nil {
+				o.Failed, o.Err = true, e.Error()
+			}
+		})
+		if o.Failed && isEnv(o.Err) {
+			obs.Env = "client: " + o.Err
+		}
+	}
+	mu.Lock()
+	defer mu.Unlock()
 	return out.Encode(obs)
 }
